@@ -1,6 +1,7 @@
 import LZ4V.Proofs.FastCap
 import LZ4V.Proofs.Arith
 import LZ4V.Proofs.FastXProof
+import LZ4V.Proofs.FastXCap
 /-!
 # C09 — block compressors honour the destination-capacity contract (specification + regenerated bound part)
 -/
@@ -66,5 +67,14 @@ theorem stream_block_within_bound (hashOf : Array UInt8 → Bool → Nat → Nat
     blk.length ≤ data.size + data.size / 255 + 2 := by
   have := (run_parsed hashOf ops {} [] Inv_init k addr data acc cap blk hop h [] _ rfl (Or.inl rfl)).size_le
   rwa [Array.length_toList] at this
+
+open LZ4V.Model.FastX in
+/-- **streaming calls never write beyond the capacity**: whatever the history of the stream (any placement of the sources, loaded, saved or attached
+    dictionaries, resets), a block returned by `LZ4_compress_fast_continue` (model `Model/FastX.lean`) is at most `cap` bytes long — the output position
+    of the model is exactly the number of bytes serialised so far, and every `limitedOutput` test of the C is in the model -/
+theorem stream_block_fits_capacity (hashOf : Array UInt8 → Bool → Nat → Nat) (ops : List Op) (k addr : Nat) (data : Array UInt8) (acc : Int) (cap : Nat)
+    (blk : List UInt8) (hop : ops[k]? = some (.compress addr data acc cap)) (h : (run hashOf {} ops)[k]? = some (.block (some blk))) :
+    blk.length ≤ cap :=
+  run_fits hashOf ops {} [] Inv_init k addr data acc cap blk hop h
 
 end LZ4V.C09
